@@ -8,6 +8,7 @@ import (
 	"path/filepath"
 	"sort"
 	"strconv"
+	"regexp"
 	"strings"
 	"time"
 )
@@ -64,7 +65,9 @@ func loadLibrary() (*Library, error) {
 
 func verifyFunctions(P *Program, L *Library, keys []string, opt solveOpts) []*FuncResult {
 	var out []*FuncResult
-	for _, k := range keys {
+	for _, spec := range keys {
+		// "key~regexp": only the obligations of key whose label matches belong to the property
+		k, only := splitFnSpec(spec)
 		t0 := time.Now()
 		x := newExec(P, L)
 		x.closures = map[string]*closureInfo{}
@@ -79,6 +82,15 @@ func verifyFunctions(P *Program, L *Library, keys []string, opt solveOpts) []*Fu
 			}
 		}
 		fr.Obls = x.obls
+		if only != nil {
+			var keep []*Obligation
+			for _, o := range x.obls {
+				if o.Cover || only.MatchString(o.Label) {
+					keep = append(keep, o)
+				}
+			}
+			fr.Obls = keep
+		}
 		fr.Prelude = strings.Join(x.C.decls, "\n") + "\n"
 		fr.Abstr = sortedKeys(x.abstr)
 		fr.Used = sortedKeys(x.C.used)
@@ -98,6 +110,26 @@ func verifyFunctions(P *Program, L *Library, keys []string, opt solveOpts) []*Fu
 		}
 	}
 	solvePool(all, opt)
+	return out
+}
+
+func splitFnSpec(spec string) (string, *regexp.Regexp) {
+	if i := strings.Index(spec, "~"); i >= 0 {
+		return spec[:i], regexp.MustCompile(spec[i+1:])
+	}
+	return spec, nil
+}
+
+func fnBases(specs []string) []string {
+	var out []string
+	seen := map[string]bool{}
+	for _, s := range specs {
+		k, _ := splitFnSpec(s)
+		if !seen[k] {
+			seen[k] = true
+			out = append(out, k)
+		}
+	}
 	return out
 }
 
@@ -347,7 +379,7 @@ func runCheck(prop, tier string, seed int) int {
 	if tier == "thorough" {
 		// cross-check of the SMT model of Go: every function of the property, many inputs
 		var rest []string
-		for _, k := range pc.Functions {
+		for _, k := range fnBases(pc.Functions) {
 			if !needRT[k] && isRepoFn(k) {
 				rest = append(rest, k)
 			}
@@ -364,8 +396,23 @@ func runCheck(prop, tier string, seed int) int {
 		}
 	}
 	reported := map[string]bool{}
+	// recorded, unrepaired defects: the obligations named in an open known-findings entry are expected to fail
+	openIDs := map[string]*KnownFinding{}
+	for i := range known {
+		kf := &known[i]
+		if kf.Property == prop && kf.Status == "open" {
+			for _, id := range strings.Split(kf.Obligation, ",") {
+				openIDs[strings.TrimSpace(id)] = kf
+			}
+		}
+	}
+	stillFails := map[*KnownFinding]bool{}
 	for _, g := range groups {
 		if len(g.Failed) == 0 {
+			continue
+		}
+		if kf := openIDs[g.ID]; kf != nil {
+			stillFails[kf] = true
 			continue
 		}
 		if !inLedger[g.ID] && len(ledger[prop]) > 0 {
@@ -399,9 +446,14 @@ func runCheck(prop, tier string, seed int) int {
 			stillDetached = append(stillDetached, k)
 		}
 	}
-	for _, kf := range known {
+	for i := range known {
+		kf := &known[i]
 		if kf.Property == prop && kf.Status == "open" {
-			fmt.Printf("KNOWN-FINDING: property=%s %s\n", prop, kf.What)
+			if stillFails[kf] {
+				fmt.Printf("KNOWN-FINDING: property=%s %s\n", prop, kf.What)
+			} else {
+				fmt.Printf("NOTE property=%s the recorded finding no longer reproduces (obligation %s is discharged): %s\n", prop, kf.Obligation, kf.What)
+			}
 		}
 	}
 	for _, l := range lines {
